@@ -14,6 +14,7 @@
 import Props.Lemmas.C08_Parse
 import Props.Lemmas.C08_Model
 import Props.Lemmas.C08_Aux
+import Props.Lemmas.C08_PreFix
 
 namespace Pypyr.C08
 open Pypyr.Format
@@ -35,32 +36,30 @@ example : parseTuples "a{{b}} {x.y[0]!r:>5}{z[k:v]}".toList =
 
 /-- `_format_keep_type` = `Spec.format` on every string that parses and whose fields are named
     references (not empty / all-digit) with specs free of nested fields — for every context, fuel,
-    recursion flag. `ConvOk`: a *single* expression that carries a conversion must be `rf`/`ff` or sit
-    inside a recursive format; outside that the code deviates from the documented rule (finding, see
-    `single_conversion_formats_converted_text`). -/
+    recursion flag. (Before /repo commit db7f4e2 this failed for a single expression with a conversion:
+    see `single_conversion_formats_converted_text_pre_fix`.) -/
 theorem fmtKeepType_refines_spec (fuel : Nat) (ctx : Ctx) (isRec : Bool) (s : List Char) (ts : List Tup)
-    (hp : parseTuples s = (ts, none)) (hg : GoodTups ts) (hc : ConvOk isRec (parts ts)) :
+    (hp : parseTuples s = (ts, none)) (hg : GoodTups ts) :
     Format.fmtKeepType (fuel + 1) ctx isRec s =
       Spec.format (fun r v => Format.fmtIter fuel ctx r v) ctx isRec (parts ts) := by
   unfold Format.fmtKeepType
-  exact keepType_refines_spec _ ctx isRec s ts hp hg hc
+  exact keepType_refines_spec _ ctx isRec s ts hp hg
 
 /-- The same over the grammar: no parse hypothesis left. -/
 theorem fmtKeepType_refines_spec_grammar (fuel : Nat) (ctx : Ctx) (isRec : Bool) (chunks : List Chunk)
-    (hw : ∀ c ∈ chunks, c.WellFormed) (hg : GoodTups (tuplesOf chunks))
-    (hc : ConvOk isRec (parts (tuplesOf chunks))) :
+    (hw : ∀ c ∈ chunks, c.WellFormed) (hg : GoodTups (tuplesOf chunks)) :
     Format.fmtKeepType (fuel + 1) ctx isRec (render chunks) =
       Spec.format (fun r v => Format.fmtIter fuel ctx r v) ctx isRec (parts (tuplesOf chunks)) :=
-  fmtKeepType_refines_spec fuel ctx isRec _ _ (parse_render chunks hw) hg hc
+  fmtKeepType_refines_spec fuel ctx isRec _ _ (parse_render chunks hw) hg
 
 /-- … and at the API: `Context.get_formatted_value(s)` for a str `s`. -/
 theorem fmtVal_str_refines_spec (fuel : Nat) (ctx : Ctx) (s : String) (ts : List Tup)
-    (hp : parseTuples s.toList = (ts, none)) (hg : GoodTups ts) (hc : ConvOk false (parts ts)) :
+    (hp : parseTuples s.toList = (ts, none)) (hg : GoodTups ts) :
     Format.fmtVal (fuel + 2) ctx (.str s) =
       Spec.format (fun r v => Format.fmtIter fuel ctx r v) ctx false (parts ts) := by
   unfold Format.fmtVal
   rw [Format.fmtIter]
-  exact fmtKeepType_refines_spec fuel ctx false _ ts hp hg hc
+  exact fmtKeepType_refines_spec fuel ctx false _ ts hp hg
 
 def exCtx : Ctx :=
   [("a", .str "x{b}"), ("b", .int 5), ("l", .list [.int 1, .str "{b}"]), ("s", .sic "{raw}"),
@@ -71,11 +70,8 @@ example : parseTuples "-{a}-{l[1]:rf}|{b:>4}".toList =
         ⟨['|'], some ⟨['b'], ['>', '4'], none⟩⟩], none) ∧
     GoodTups [⟨['-'], some ⟨['a'], [], none⟩⟩, ⟨['-'], some ⟨"l[1]".toList, ['r', 'f'], none⟩⟩,
         ⟨['|'], some ⟨['b'], ['>', '4'], none⟩⟩] ∧
-    ConvOk false (parts [⟨['-'], some ⟨['a'], [], none⟩⟩, ⟨['-'], some ⟨"l[1]".toList, ['r', 'f'], none⟩⟩,
-        ⟨['|'], some ⟨['b'], ['>', '4'], none⟩⟩]) ∧
     Format.fmtVal 8 exCtx (.str "-{a}-{l[1]:rf}|{b:>4}") = .ok (.str "-x{b}-5|   5") := by
-  refine ⟨by rfl, goodTups_of_check _ (by rfl), ?_, by rfl⟩
-  intro f hf; simp [parts, Tup.parts] at hf
+  refine ⟨by rfl, goodTups_of_check _ (by rfl), by rfl⟩
 
 /-- On `specInDomain` the model's `format(v, spec)` never answers "outside the modelled domain". -/
 theorem formatField_in_domain (v : Val) (spec : List Char) (h : specInDomain v spec = true) (e : Exc)
@@ -105,11 +101,7 @@ theorem single_expression_keeps_type (fuel : Nat) (ctx : Ctx) (name : List Char)
     intro t ht f hf
     simp [tuplesOf, tuplesFrom] at ht; subst ht; simp at hf; subst hf
     exact ⟨hnamed, by intro c hc; simp at hc⟩
-  have hc : ConvOk false (parts (tuplesOf [Chunk.expr ⟨name, [], none⟩])) := by
-    intro f hf
-    simp [tuplesOf, tuplesFrom, parts, Tup.parts] at hf
-    subst hf; exact Or.inl rfl
-  have := fmtKeepType_refines_spec_grammar fuel ctx false _ hw hg hc
+  have := fmtKeepType_refines_spec_grammar fuel ctx false _ hw hg
   simp only [render, Chunk.render, FieldT.text, FieldT.tail, List.append_nil, if_true, List.nil_append] at this
   rw [this]
   simp only [tuplesOf, tuplesFrom, List.nil_append, parts, Tup.parts, if_true, List.append_nil,
@@ -136,60 +128,95 @@ example : Format.fmtVal 8 exCtx (.str "{l}") = .ok (.list [.int 1, .int 5]) ∧
     Format.fmtVal 9 exCtx (.str "{n}") = .ok (.dict [(.str "k", .str "x5")]) := by
   refine ⟨by rfl, by rfl, by rfl⟩
 
-/-- **Finding (deviation of the code from the documented rule).** A single expression with a conversion
-    and without `rf`/`ff` — `'{name!c}'` — is converted first, and then the *converted text* is formatted
-    as a format string; the documented rule (`Spec.formatSingle`, and the code itself under `:rf`) formats
-    the referenced object and converts the result. With a dict or set the converted text has braces of
-    its own: `'{d!s}'` for `d = {}` parses the text `{}` as an auto-numbered field and raises
-    `TypeError`, `'{e!r}'` for `e = {'k': 1}` raises `KeyNotInContextError("'k' …")`. -/
-theorem single_conversion_formats_converted_text (fuel : Nat) (ctx : Ctx) (name : List Char) (c : Char)
+/-- A single expression with a conversion, `'{name!c}'`: the referenced object is formatted
+    recursively and the *result* is converted (what `:rf` always did). -/
+theorem single_conversion_converts_formatted_object (fuel : Nat) (ctx : Ctx) (name : List Char) (c : Char)
     (hn : isFieldName false name = true) (hnamed : Named name) :
     Format.fmtKeepType (fuel + 1) ctx false ('{' :: (name ++ ['!', c, '}'])) =
       (match getField ctx name with
        | .error e => .error e
+       | .ok obj => match Format.fmtIter fuel ctx false obj with
+         | .error e => .error e
+         | .ok o => convertField o (some c)) := by
+  have hw : ∀ ch ∈ [Chunk.expr ⟨name, [], some c⟩], ch.WellFormed := by
+    intro ch hc; simp at hc; subst hc; exact ⟨hn, by intro c hc; simp at hc⟩
+  have hg : GoodTups (tuplesOf [Chunk.expr ⟨name, [], some c⟩]) := by
+    intro t ht f hf
+    simp [tuplesOf, tuplesFrom] at ht; subst ht; simp at hf; subst hf
+    exact ⟨hnamed, by intro c hc; simp at hc⟩
+  have := fmtKeepType_refines_spec_grammar fuel ctx false _ hw hg
+  simp only [render, Chunk.render, FieldT.text, FieldT.tail, List.append_nil, if_true, List.nil_append,
+    List.cons_append] at this
+  rw [this]
+  simp only [tuplesOf, tuplesFrom, List.nil_append, parts, Tup.parts, if_true, List.append_nil,
+    Spec.format, Spec.formatSingle, Spec.isRf, Spec.isFf, Spec.specBody, bind, Except.bind,
+    pure, Except.pure]
+  cases getField ctx name with
+  | error e => rfl
+  | ok obj =>
+    simp
+    cases Format.fmtIter fuel ctx false obj with
+    | error e => rfl
+    | ok o => simp only []; cases convertField o (some c) <;> rfl
+
+/-- **HISTORICAL witness — the ordering before /repo commit db7f4e2, not the current code.**
+    `PreFix.keepType` is `_format_keep_type` as it was: a single expression with a conversion and
+    without `rf`/`ff` was converted first, and then the *converted text* was formatted as a format
+    string. With a dict or set that text has braces of its own: `'{d!s}'` for `d = {}` parsed the
+    text `{}` as an auto-numbered field and raised `TypeError`; `'{e!r}'` for `e = {'k': 1}` raised
+    `KeyNotInContextError("'k' …")`. The check's monitor "single-conversion" flags this behaviour. -/
+theorem single_conversion_formats_converted_text_pre_fix (fi : Bool → Val → Except Exc Val) (ctx : Ctx)
+    (name : List Char) (c : Char) (hn : isFieldName false name = true) (hnamed : Named name) :
+    PreFix.keepType fi ctx false ('{' :: (name ++ ['!', c, '}'])) =
+      (match getField ctx name with
+       | .error e => .error e
        | .ok obj => match convertField obj (some c) with
          | .error e => .error e
-         | .ok txt => Format.fmtIter fuel ctx false txt) := by
+         | .ok txt => fi false txt) := by
   have hw : ∀ ch ∈ [Chunk.expr ⟨name, [], some c⟩], ch.WellFormed := by
     intro ch hc; simp at hc; subst hc; exact ⟨hn, by intro c hc; simp at hc⟩
   have hp := parse_render _ hw
   simp only [render, Chunk.render, FieldT.text, FieldT.tail, List.append_nil, if_true, List.nil_append,
     List.cons_append, tuplesOf, tuplesFrom] at hp
-  have hg : GoodTups [⟨[], some ⟨name, [], some c⟩⟩] := by
-    intro t ht f hf
-    simp at ht; subst ht; simp at hf; subst hf
-    exact ⟨hnamed, by intro c hc; simp at hc⟩
-  unfold Format.fmtKeepType keepType
+  unfold PreFix.keepType
   simp only [hp]
-  rw [ktLoop_good _ _ _ _ _ _ hg]
-  simp only [parts, Tup.parts, if_true, List.nil_append, List.append_nil, mapE, entryOf]
-  have hcond : (Spec.isRf ([] : List Char) || (false && !Spec.isFf ([] : List Char))) = false := by decide
-  rw [fieldObj_plain _ _ _ ⟨name, [], some c⟩ hcond]
+  unfold PreFix.ktLoop
+  simp only [if_true]
+  unfold PreFix.ktField
+  rw [autoNumber_named _ _ hnamed]
+  simp only []
   cases getField ctx name with
   | error e => rfl
   | ok obj =>
     simp only []
+    rw [vfmt_plain 1 ctx [] (some 0) (by intro c hc; simp at hc)]
+    have h1 : Spec.isRf ([] : List Char) = false := by decide
+    have h2 : Spec.isFf ([] : List Char) = false := by decide
+    have h3 : Spec.specBody ([] : List Char) = [] := by decide
+    simp only [RSpec.parse_eq, h1, h2, h3, Bool.false_or, Bool.false_and, Bool.false_eq_true, if_false]
     cases convertField obj (some c) with
     | error e => rfl
     | ok txt =>
       simp only [List.nil_append]
-      have hs : ((rsOf false []).hasRecursed || (rsOf false []).isFlat) = false := by decide
-      rw [ktFinish_single_go _ _ _ hs]
-      have h1 : (rsOf false []).isRecursive = false := by decide
-      have h2 : (rsOf false []).formatSpec = [] := by decide
-      rw [h1, h2]
-      cases Format.fmtIter fuel ctx false txt <;> simp [finText]
+      unfold PreFix.ktLoop
+      simp only []
+      rw [ktFinish_single_go _ _ _ (by rfl)]
+      cases fi false txt <;> simp [finText, convertField_none]
 
 example :
-    -- the code: the text `{}` is parsed again
-    Format.fmtVal 8 [("d", .dict [])] (.str "{d!s}") = .error errArgsNone ∧
-    Format.fmtVal 8 [("e", .dict [(.str "k", .int 1)])] (.str "{e!r}") = .error (keyNotInContext "'k'") ∧
-    -- the documented rule, and Python's own '{d!s}'.format(d={})
-    Spec.format (fun r v => Format.fmtIter 6 [("d", .dict [])] r v) [("d", .dict [])] false
-      (parts (parseTuples "{d!s}".toList).1) = .ok (.str "{}") ∧
-    -- in a mixed string the code is right
-    Format.fmtVal 8 [("d", .dict [])] (.str "x{d!s}") = .ok (.str "x{}") := by
-  refine ⟨by rfl, by rfl, by rfl, by rfl⟩
+    -- before the fix: the text `{}` was parsed again
+    PreFix.fmtVal 8 [("d", .dict [])] (.str "{d!s}") = .error errArgsNone ∧
+    PreFix.fmtVal 8 [("e", .dict [(.str "k", .int 1)])] (.str "{e!r}") = .error (keyNotInContext "'k'") ∧
+    PreFix.fmtVal 8 [("l", .list [.int 1, .str "{i}"]), ("i", .int 5)] (.str "{l!r}") = .ok (.str "[1, '5']") ∧
+    -- the current code, the documented rule, and Python's own '{d!s}'.format(d={})
+    Format.fmtVal 8 [("d", .dict [])] (.str "{d!s}") = .ok (.str "{}") ∧
+    Format.fmtVal 8 [("e", .dict [(.str "k", .int 1)])] (.str "{e!r}") = .ok (.str "{'k': 1}") ∧
+    Format.fmtVal 8 [("l", .list [.int 1, .str "{i}"]), ("i", .int 5)] (.str "{l!r}") = .ok (.str "[1, 5]") ∧
+    Format.fmtVal 8 [("l", .list [.int 1, .str "{i}"]), ("i", .int 5)] (.str "{l!r:ff}") = .ok (.str "[1, '{i}']") ∧
+    -- a mixed string: one level, the unformatted object is converted — before and after
+    Format.fmtVal 8 [("l", .list [.int 1, .str "{i}"]), ("i", .int 5)] (.str "x {l!r} y") = .ok (.str "x [1, '{i}'] y") ∧
+    PreFix.fmtVal 8 [("l", .list [.int 1, .str "{i}"]), ("i", .int 5)] (.str "x {l!r} y") = .ok (.str "x [1, '{i}'] y") := by
+  refine ⟨by rfl, by rfl, by rfl, by rfl, by rfl, by rfl, by rfl, by rfl, by rfl⟩
 
 /-! ## strings mixing text and expressions -/
 
@@ -203,9 +230,7 @@ theorem mixed_is_flat_str (fuel : Nat) (ctx : Ctx) (s : List Char) (ts : List Tu
     Format.fmtKeepType (fuel + 1) ctx false s = Spec.pyFormat ctx (parts ts) ∧
     (∀ v, Format.fmtKeepType (fuel + 1) ctx false s = .ok v → ∃ t, v = .str t) := by
   have hfmt : Format.fmtKeepType (fuel + 1) ctx false s = Spec.pyFormat ctx (parts ts) := by
-    have hc : ConvOk false (parts ts) := by
-      intro f hf; rw [hf] at hlen; simp at hlen
-    rw [fmtKeepType_refines_spec fuel ctx false s ts hp hg hc]
+    rw [fmtKeepType_refines_spec fuel ctx false s ts hp hg]
     unfold Spec.pyFormat
     have hflat : ∀ deep, Spec.format deep ctx false (parts ts) = Spec.formatFlat deep ctx false (parts ts) := by
       intro deep
@@ -240,7 +265,9 @@ theorem rf_recurses (deep : Bool → Val → Except Exc Val) (ctx : Ctx) (isRec 
        | .error e => .error e
        | .ok obj => match deep true obj with
          | .error e => .error e
-         | .ok o => convertField o f.conv) := by
+         | .ok o => match convertField o f.conv with
+           | .error e => .error e
+           | .ok o' => .ok (o', none)) := by
   apply fieldObj_rec
   rcases h with h | ⟨h1, h2⟩ <;> simp [*]
 
@@ -258,11 +285,7 @@ theorem rf_single (fuel : Nat) (ctx : Ctx) (isRec : Bool) (name : List Char)
     intro t ht f hf
     simp [tuplesOf, tuplesFrom] at ht; subst ht; simp at hf; subst hf
     exact ⟨hnamed, by intro c hc; simp at hc; rcases hc with rfl | rfl <;> decide⟩
-  have hc : ConvOk isRec (parts (tuplesOf [Chunk.expr ⟨name, ['r', 'f'], none⟩])) := by
-    intro f hf
-    simp [tuplesOf, tuplesFrom, parts, Tup.parts] at hf
-    subst hf; exact Or.inl rfl
-  have := fmtKeepType_refines_spec_grammar fuel ctx isRec _ hw hg hc
+  have := fmtKeepType_refines_spec_grammar fuel ctx isRec _ hw hg
   simp only [render, Chunk.render, FieldT.text, FieldT.tail, List.append_nil, List.nil_append] at this
   have e : (if (['r', 'f'] : List Char) = [] then [] else ':' :: ['r', 'f']) ++ ['}'] = [':', 'r', 'f', '}'] := by decide
   rw [e] at this
@@ -283,7 +306,9 @@ theorem ff_is_flat (deep : Bool → Val → Except Exc Val) (ctx : Ctx) (isRec :
     Spec.fieldObj deep ctx isRec f =
       (match getField ctx f.name with
        | .error e => .error e
-       | .ok obj => convertField obj f.conv) :=
+       | .ok obj => match convertField obj f.conv with
+         | .error e => .error e
+         | .ok o => .ok (o, none)) :=
   fieldObj_ff deep ctx isRec f h
 
 /-- `'{name:ff}'` returns the referenced object itself, unformatted, for a single expression too. -/
@@ -296,11 +321,7 @@ theorem ff_single (fuel : Nat) (ctx : Ctx) (isRec : Bool) (name : List Char)
     intro t ht f hf
     simp [tuplesOf, tuplesFrom] at ht; subst ht; simp at hf; subst hf
     exact ⟨hnamed, by intro c hc; simp at hc; rcases hc with rfl | rfl <;> decide⟩
-  have hc : ConvOk isRec (parts (tuplesOf [Chunk.expr ⟨name, ['f', 'f'], none⟩])) := by
-    intro f hf
-    simp [tuplesOf, tuplesFrom, parts, Tup.parts] at hf
-    subst hf; exact Or.inl rfl
-  have := fmtKeepType_refines_spec_grammar fuel ctx isRec _ hw hg hc
+  have := fmtKeepType_refines_spec_grammar fuel ctx isRec _ hw hg
   simp only [render, Chunk.render, FieldT.text, FieldT.tail, List.append_nil, List.nil_append] at this
   have e : (if (['f', 'f'] : List Char) = [] then [] else ':' :: ['f', 'f']) ++ ['}'] = [':', 'f', 'f', '}'] := by decide
   rw [e] at this
@@ -337,12 +358,7 @@ theorem escapes (fuel : Nat) (ctx : Ctx) (isRec : Bool) (chunks : List Chunk) (h
     -- a tuple with a field contributes a `.fld` part, but all parts are literals
     obtain ⟨t', ht'⟩ := hl.1 _ (fld_mem_parts _ t f ht hf)
     cases ht'
-  have hc : ConvOk isRec (parts (tuplesOf chunks)) := by
-    intro f hf
-    have : Part.fld f ∈ parts (tuplesOf chunks) := by rw [hf]; simp
-    obtain ⟨t', ht'⟩ := hl.1 _ this
-    cases ht'
-  rw [fmtKeepType_refines_spec_grammar fuel ctx isRec chunks hw hg hc]
+  rw [fmtKeepType_refines_spec_grammar fuel ctx isRec chunks hw hg]
   simp only [tuplesOf]
   rw [format_lits _ _ _ _ hl.1]
   have := hl.2
